@@ -379,6 +379,11 @@ class Workflow(metaclass=WorkflowMeta):
 
         # Validate the workflow
         self._validate()
+        if self._disable_validation:
+            # Graph validation is skipped, but the @catch_error routing tables are
+            # runtime data (BrokerState.from_workflow copies them): without them a
+            # failed step would never reach its handler.
+            self._refresh_catch_error_routing()
 
         # Extract run_id before passing remaining kwargs to start event
         run_id = kwargs.pop("run_id", None)
@@ -395,6 +400,16 @@ class Workflow(metaclass=WorkflowMeta):
         return ctx._workflow_run(
             workflow=self, start_event=start_event_instance, run_id=run_id
         )
+
+    def _refresh_catch_error_routing(self) -> None:
+        """Rebuild the step -> ``@catch_error`` handler tables from the current steps."""
+        # Inline import: ``representation`` transitively imports ``Workflow``.
+        from .representation.validate import _collect_catch_error_handlers
+
+        (
+            self._catch_error_handlers,
+            self._handler_for_step,
+        ) = _collect_catch_error_handlers(self._step_configs())
 
     def validate(
         self,
